@@ -16,7 +16,7 @@ def job_index(kind, direction, seed=0, timeout_s=10.0):
 
 
 def jobs(tier, seed):
-    t = 10.0 if tier == "quick" else 60.0
+    t = 30.0 if tier == "quick" else 90.0
     js = e2_jobs("C03", CLASSES, tier, seed)
     for kind in ("state", "povm", "gate", "mprocess"):
         for direction in ("fwd", "bwd"):
